@@ -58,3 +58,42 @@ def quiet(f, *a, **k):
 
 def exc_class(e):
     return type(e).__name__
+
+
+# ---------------------------------------------------------------------------------------------------------------------
+# bystanders: OTHER objects of the same classes, built with the default constructor arguments and used with other data
+# right before the object under test is observed.  State that leaks between objects (class-level caches, mutable or
+# shared default arguments) then shows up as a wrong observation of the object under test.
+def sspor_bystander(width, n_sensors=None, seed=12345):
+    from pysensors.reconstruction import SSPOR
+    width = int(max(1, width))
+    rng = np.random.default_rng(seed + width)
+    rows = int(rng.integers(2, 6))
+    X = rng.integers(-17, 18, size=(rows, width)) / 4.0
+    try:
+        b = SSPOR()                                    # defaults on purpose
+        quiet(b.fit, X, quiet=True)
+        if n_sensors is not None and 1 <= n_sensors <= width:
+            b.set_number_of_sensors(int(n_sensors))
+        sel = np.array(b.selected_sensors, dtype=int)
+        quiet(b.predict, X[:, sel])
+        quiet(b.score, X)
+        quiet(b.reconstruction_error, X)
+    except Exception:
+        pass
+
+
+def sspoc_bystander(width, n_classes=3, seed=54321, extra_kws=False):
+    from pysensors.classification import SSPOC
+    width = int(max(2, width))
+    rng = np.random.default_rng(seed + width + n_classes)
+    rows = 6 * n_classes
+    y = np.arange(rows) % n_classes
+    X = rng.integers(-17, 18, size=(rows, width)) / 4.0 + y[:, None] * (np.arange(width) % 3)
+    try:
+        b = SSPOC()                                    # defaults on purpose (classifier, basis, ...)
+        kws = {"max_iter": 1} if (extra_kws and n_classes > 2) else {}
+        quiet(b.fit, X, y, quiet=True, **kws)
+        quiet(b.predict, X[:, np.array(b.selected_sensors, dtype=int)])
+    except Exception:
+        pass
